@@ -73,6 +73,7 @@ pub fn run_fault(line: &str) -> String {
                     path_part: part.to_string(),
                     ordinal: f[2].parse().unwrap(),
                     sticky: f[3] == "1",
+                    partial: 0,
                 },
             ));
         }
@@ -104,6 +105,7 @@ pub fn run_fault(line: &str) -> String {
                             path_part: part.to_string(),
                             ordinal: ord,
                             sticky,
+                            partial: 0,
                         },
                     ));
                 }
